@@ -446,6 +446,13 @@ pub fn run(ctx: &Ctx) -> PropResult {
             1 => (n1 as i128 + *rng.pick(&[-1i128, 1, 1_000, -1_000, 999_999_999, -1_000_000_000, 3_600_000_000_000, -3_599_999_999_999])).clamp(0, dn as i128 - 1) as u64,
             _ => rng.below(dn),
         };
+        let (n1, n2) = if rng.chance(1, 6) {
+            let (a, b, tag) = crate::model::magic::alias_time_pair(rng, n1);
+            rec.bin(tag);
+            (a, b)
+        } else {
+            (n1, n2)
+        };
         judge_time_pair(rec, n1, n2, gen_offset(rng), gen_offset(rng));
     }));
     // call sequences: a timestamp, then timestamps a power-of-two number of seconds / days away, its negative, the
@@ -481,6 +488,7 @@ pub fn run(ctx: &Ctx) -> PropResult {
         "outward/local-reading-beyond-the-range-end",
         "local-twin/judged", "local-twin/synthetic-fixed-zone", "local-twin/real-zone-with-transitions",
         "ts/out-low", "ts/out-high", "ts/in-range-edge", "ts/neg-non-aligned", "ts/neg-day-aligned", "ts/pos", "anchor/1970-01-01=0",
+        "alias/radix-fold", "alias/xor-fold", "alias/bitwise-unit-relative", "alias/wrapped-residue",
         "pair/equal-instant", "pair/straddles-0001-01-01", "pair/sub-second", "pair/same-day", "pair/straddles-midnight-within-24h", "pair/far", "pair/different-offsets",
         "datepair/equal", "datepair/straddles-era", "timepair/equal", "timepair/other",
     ];
